@@ -471,7 +471,8 @@ fn vp_write(m: &mut VpModel, w: &mut World, bar: u8, off: u64, width: u8, val: u
                 let old = w.dev.status;
                 if val == 0 {
                     m.status_shown = old as u8;
-                    m.reset_lag = m.reset_delay;
+                    // the old status stays visible while the reset is in progress (unobservable if it was 0)
+                    m.reset_lag = if old & 0xff != 0 { m.reset_delay } else { 0 };
                     m.q.clear();
                     m.queue_select = 0;
                 }
